@@ -115,8 +115,14 @@ pub open spec fn ws_tokens(s: Seq<char>) -> Seq<Seq<char>>
 pub open spec fn split_char(s: Seq<char>, c: char) -> Seq<Seq<char>>
     decreases s.len()
 {
-    let n = prefix_while(s, |x: char| x != c);
-    if n >= s.len() || n < 0 { seq![s] } else { seq![s.take(n)] + split_char(s.skip(n + 1), c) }
+    let i = find_char(s, c);
+    if i < 0 || i >= s.len() { seq![s] } else { seq![s.take(i)] + split_char(s.skip(i + 1), c) }
+}
+/// index of the first occurrence of c in s, or -1
+pub open spec fn find_char(s: Seq<char>, c: char) -> int
+    decreases s.len()
+{
+    if s.len() == 0 { -1 } else if s[0] == c { 0 } else { let r = find_char(s.skip(1), c); if r < 0 { -1 } else { r + 1 } }
 }
 
 pub open spec fn strings_view(v: Seq<String>) -> Seq<Seq<char>> { v.map_values(|x: String| x@) }
